@@ -429,13 +429,25 @@ func DecodeUnverifiedBaseResponse(encodedResponse string) (*types.UnverifiedBase
 
 	err = maybeDeflate(raw, defaultMaxDecompressedResponseSize, func(maybeXML []byte) error {
 		response = &types.UnverifiedBaseResponse{}
-		return xml.Unmarshal(maybeXML, response)
+		return xmlUnmarshalIgnoringCharset(maybeXML, response)
 	})
 	if err != nil {
 		return nil, err
 	}
 
 	return response, nil
+}
+
+// xmlUnmarshalIgnoringCharset is xml.Unmarshal with a pass-through charset
+// reader: like the etree parser used for full validation, it treats the bytes
+// as UTF-8 whatever encoding the XML declaration names, so that the unverified
+// decoders accept exactly the documents that validation accepts.
+func xmlUnmarshalIgnoringCharset(data []byte, v interface{}) error {
+	decoder := xml.NewDecoder(bytes.NewReader(data))
+	decoder.CharsetReader = func(charset string, input io.Reader) (io.Reader, error) {
+		return input, nil
+	}
+	return decoder.Decode(v)
 }
 
 // maybeDeflate invokes the passed decoder over the passed data. If an error is
@@ -506,7 +518,7 @@ func DecodeUnverifiedLogoutResponse(encodedResponse string) (*types.LogoutRespon
 
 	err = maybeDeflate(raw, defaultMaxDecompressedResponseSize, func(maybeXML []byte) error {
 		response = &types.LogoutResponse{}
-		return xml.Unmarshal(maybeXML, response)
+		return xmlUnmarshalIgnoringCharset(maybeXML, response)
 	})
 	if err != nil {
 		return nil, err
